@@ -343,7 +343,7 @@ Qed.
 
 Lemma evalM_single n (S : 'M[R]_n) t : evalM n [::] S t = mexp (Q2R t *: S).
 Proof.
-rewrite /eval_at /= mul1mx /stepM; congr (mexp (_ *: _)).
+rewrite -[LHS]/(1%:M *m stepM S (t - 0)%QQ) mul1mx /stepM; congr (mexp (_ *: _)).
 by apply: Qeq_eqR; rewrite /Qminus Qplus_0_r.
 Qed.
 
